@@ -27,6 +27,14 @@ CHECKS["C04"] = dict(
     ref="DESIGN.md 5.C04",
 )
 
+CHECKS["C12"] = dict(
+    engine="symx+z3",
+    technique="bounded symbolic execution (symx/z3) of IdentityDict against a model mapping over symbolic operation sequences with symbolic values; solver-enumerated registration sequences on equal-but-distinct code objects, wrapper towers, nested-name paths and all customize option combinations",
+    text="All paths over operation sequences of length 3 (thorough 4) on IdentityDict with equal-but-distinct unhashable keys; all registration sequences <= 3 (4) on twin code objects; all towers of depth <= 3 (4) over 7 layer kinds; 17 nested-name paths x 3 target forms; 2^3 x 3 x 2 customize configurations observed through a real extract. Holds within these bounds.",
+    note="Values stored in the mapping are unconstrained z3 Ints compared by identity; low solver leverage for obligations 2-4 (finite choice spaces certified complete by the solver).",
+    ref="DESIGN.md 5.C12",
+)
+
 NOT_APPLICABLE = {
     "C06": "Quantifies over interpreter bookkeeping (reference counts, object lifetime, crashes) behind a ctypes boundary; no value a solver can range over, and any symbolic engine perturbs the very refcounts measured (DESIGN.md 5.C06).",
     "C07": "OS-thread interleavings against raw-memory reads; depends on when CPython releases the GIL, not on Python-level data; needs a runtime schedule controller, a different technique family (DESIGN.md 5.C07).",
